@@ -557,6 +557,7 @@ pub fn run(tier: &str, only: Option<&str>) -> Vec<Grid> {
         } else {
             all_shapes!(for_each_shape, single, (gr, lens_q));
         }
+        for_each_shape!(single, (gr, lens_q); [S300a1, S258a2, S260a4, S1000a8, S320a64]);
         out.push(g);
     }
     if only.is_none() || only == Some("overflow") {
